@@ -25,7 +25,9 @@ SO = os.path.join(HERE, "build", "faultfs.so")
 
 OPS = {"write": 1, "rename": 2, "sendfile": 3, "copy_file_range": 4, "open": 5, "unlink": 6, "fsync": 7, "close": 8}
 NAMES = ["out.dat", "ABS", "a b.dat", "é.dat", "a#b.dat", "a?b.dat", "a;b.dat", "c:d.dat", "sub/x.dat", "./rel.dat",
-         "r%20x.dat", "50%.dat", "a&b=c.dat", "~x.dat"]
+         "r%20x.dat", "50%.dat", "a&b=c.dat", "~x.dat",
+         # the destination name is a symbolic link to a regular file in another directory (always pre-existing)
+         "LINK"]
 # how the name is handed over: the str itself, a pathlib.Path, the bytes file-system encoding (all accepted by open())
 NAME_KINDS = {"out.dat": ("str", "path", "bytes"), "a#b.dat": ("str", "path", "bytes"), "é.dat": ("str", "path", "bytes"),
               "ABS": ("str", "path")}
@@ -190,6 +192,12 @@ class Runner(object):
             os.chdir(work)
             dest_arg = os.path.join(work, "abs.dat") if name == "ABS" else name
             dest_rel = os.path.normpath(os.path.join("work", "abs.dat" if name == "ABS" else name))
+            if name == "LINK":
+                os.makedirs(os.path.join(work, "real"))
+                with open(os.path.join(work, "real", "target.dat"), "wb") as f:
+                    f.write(b"OLD TARGET " * 60)
+                os.symlink(os.path.join("real", "target.dat"), os.path.join(work, "lnk.dat"))
+                dest_arg, dest_rel, pre = "lnk.dat", os.path.join("work", "lnk.dat"), False
             if pre:
                 with open(dest_arg, "wb") as f:
                     f.write(b"OLD CONTENT " * 50)
@@ -235,6 +243,10 @@ class Runner(object):
                                      "old_len": None if before.get(dest_rel) is None else len(before.get(dest_rel))})
                 leaked = sorted(k for k in changed if k != dest_rel)
                 v["leaked"] = leaked
+                if leaked and "problem" not in v and not any(r[0] == "unlink" for r in sched):
+                    # nothing prevented the clean-up: the failed call must not leave anything behind
+                    v["problem"] = ("file-left-behind-by-failed-write", "temp" if ".prov-tmp" in leaked[0] else "other",
+                                    {"left": leaked[:3]})
             return v
         finally:
             os.chdir(old_cwd)
